@@ -16,5 +16,8 @@ head = "| id | property | change | detected by |\n|---|---|---|---|\n"
 i = s.index(head) + len(head)
 j = s.index("\nWhat the misses taught")
 s = s[:i] + "\n".join(rows) + "\n" + s[j:]
+n = len(rows)
+aft = sum(1 for r in rows if "(after" in r or " after " in r.split("|")[-2])
+s = re.sub(r"(\w+) of (\w+) are detected within a\n15-20 s budget; (\w+) of them only after", "%d of %d are detected within a\n15-20 s budget; %d of them only after" % (n, n, aft), s)
 open(p, "w").write(s)
-print(len(rows), "rows")
+print(n, "rows,", aft, "after strengthening")
